@@ -214,8 +214,8 @@ def run_case(ctx, case):
         ctx.violation('%s|%s|%s|%s' % (h['logger'].split('.session.')[0], h['level'], h['where'], h['kind'].split(':')[0]),
                       'a %s record of logger %s (%s) contains a %s canary: %r'
                       % (h['level'], h['logger'], h['where'], h['kind'], h['text'][:200]), None)
-    for (lg, lvl), n in ctx.scan.by_logger.items():
-        ctx.cell(lg, lvl)
+    for (lg, lvl, where), n in ctx.scan.by_logger.items():
+        ctx.cell(lg, lvl, where)
     if len(ctx.samples) < 3:
         ctx.sample({'records_scanned': ctx.scan.scanned, 'debug_records_seen': ctx.scan.debug_records,
-                    'loggers': sorted('%s:%s' % k for k in ctx.scan.by_logger)})
+                    'record_sources': sorted('%s:%s@%s' % k for k in ctx.scan.by_logger)[:40]})
